@@ -45,7 +45,20 @@ type params struct {
 	// way and the very same arguments are loaded again in the same process:
 	// the second load must see the new state of the file system
 	Second string `json:"second_act,omitempty"`
+	// Noise: legal bystanders placed in every package directory; none of them
+	// belongs to the packages being loaded on this platform
+	Noise []string `json:"noise,omitempty"`
+	// Repair: after an injected fault was reported the damage is removed and the
+	// same arguments are loaded again in the same process: the load must succeed
+	Repair bool `json:"repair,omitempty"`
 }
+
+var noiseKinds = []string{"ext_test", "in_test", "ignore_main", "os_variant", "underscore_garbage", "dot_garbage", "testdata_garbage", "nested_module", "hidden_dir"}
+
+// faults that are one extra file zz_*.go and can be repaired by removing it
+var repairable = map[string]bool{"type_error_root": true, "type_error_import": true, "type_error_import_body": true, "unused_import_root": true,
+	"unused_import_dep": true, "syntax_error_root": true, "import_of_missing_package": true, "empty_go_file": true}
+
 
 type c17 struct{}
 
@@ -171,8 +184,16 @@ func (c17) Generate(env *kernel.Env, r *kernel.Rand, index int) any {
 		p.Cwd = "fsroot"
 	}
 	if r.Chance(1, 3) {
+		for _, k := range noiseKinds {
+			if r.Chance(1, 3) {
+				p.Noise = append(p.Noise, k)
+			}
+		}
+	}
+	if r.Chance(1, 3) {
 		p.Fault = kernel.Pick(r, faults)
 		p.FaultA = r.Intn(64)
+		p.Repair = r.Chance(1, 2)
 	} else if r.Chance(1, 3) {
 		p.Second = kernel.Pick(r, []string{"type_error_root", "syntax_error_root", "missing", "type_error_import"})
 		p.FaultA = r.Intn(64)
@@ -245,6 +266,41 @@ func (c17) Execute(env *kernel.Env, raw json.RawMessage, ch *kernel.Choices) *ke
 			fmt.Fprintf(&b, "type T%d_%d struct{ A int }\n", i, j)
 			must(os.WriteFile(filepath.Join(dir, f), []byte(b.String()), 0o644))
 		}
+	}
+	for _, kind := range p.Noise {
+		for i, ps := range p.Pkgs {
+			dir := filepath.Join(modRoot, filepath.FromSlash(ps.Dir))
+			w := func(rel, content string) {
+				f := filepath.Join(dir, filepath.FromSlash(rel))
+				must(os.MkdirAll(filepath.Dir(f), 0o755))
+				must(os.WriteFile(f, []byte(content), 0o644))
+			}
+			switch kind {
+			case "ext_test":
+				w("zn_ext_test.go", fmt.Sprintf("package %s_test\n\nimport \"testing\"\n\nfunc TestNoise(t *testing.T) {}\n", ps.Name))
+			case "in_test":
+				w("zn_in_test.go", fmt.Sprintf("package %s\n\nimport \"testing\"\n\nfunc TestNoiseIn(t *testing.T) { _ = T%d_0{} }\n", ps.Name, i))
+			case "ignore_main":
+				w("zn_gen.go", "//go:build ignore\n\npackage main\n\nfunc main() {}\n")
+			case "os_variant":
+				// the platform variant of a declaration: excluded on this platform
+				w("zn_types_windows.go", fmt.Sprintf("package %s\n\ntype T%d_0 struct{ A string }\n", ps.Name, i))
+				w("zn_tagged.go", fmt.Sprintf("//go:build plan9 && never\n\npackage %s\n\ntype T%d_0 struct{ B bool }\n", ps.Name, i))
+			case "underscore_garbage":
+				w("_draft.go", "this is not go\n")
+			case "dot_garbage":
+				w(".#types0.go", "editor lock file, not go\n")
+			case "testdata_garbage":
+				w("testdata/broken.go", "package broken\n\nvar x int = \"s\"\n")
+			case "nested_module":
+				w("zn_tool/go.mod", "module example.org/other/tool\n\ngo 1.23\n")
+				w("zn_tool/main.go", "package main\n\nvar broken int = \"s\"\n")
+			case "hidden_dir":
+				w("_old/old.go", "package old\n\nfunc broken( {\n")
+				w(".cache/c.go", "garbage\n")
+			}
+		}
+		out.Fault("noise_" + kind)
 	}
 	// working directory
 	cwd := modRoot
@@ -432,7 +488,7 @@ func (c17) Execute(env *kernel.Env, raw json.RawMessage, ch *kernel.Choices) *ke
 		err      error
 		panicked any
 	)
-	func() {
+	load := func() {
 		defer func() {
 			if r := recover(); r != nil {
 				panicked = r
@@ -449,7 +505,8 @@ func (c17) Execute(env *kernel.Env, raw json.RawMessage, ch *kernel.Choices) *ke
 			pkgPaths = append(pkgPaths, pk.PkgPath)
 			goFiles = append(goFiles, pk.GoFiles)
 		}
-	}()
+	}
+	load()
 	os.Chdir(oldwd)
 	os.Setenv("PATH", savedPath)
 	out.Steps = int64(len(args))
@@ -482,7 +539,30 @@ func (c17) Execute(env *kernel.Env, raw json.RawMessage, ch *kernel.Choices) *ke
 		}
 		out.Probe("fault_reported_as_error")
 		out.Keys = append(out.Keys, shape(&p)+"|"+fault)
-		return out
+		if !(p.Repair && repairable[fault]) {
+			return out
+		}
+		// third act: the damage is repaired, the same arguments are loaded again
+		for _, ps := range p.Pkgs {
+			matches, _ := filepath.Glob(filepath.Join(modRoot, filepath.FromSlash(ps.Dir), "zz_*.go"))
+			for _, m := range matches {
+				must(os.Remove(m))
+			}
+		}
+		out.Fault("repair_after_" + fault)
+		must(os.Chdir(cwd))
+		panicked = nil
+		pkgPaths, goFiles = nil, nil
+		load()
+		os.Chdir(oldwd)
+		if panicked != nil {
+			return viol("load_panics", "repair", "LoadSources panicked on the repaired tree: %v", panicked)
+		}
+		if err != nil {
+			return viol("stale_result_after_change", "repair after "+fault, "the load failed as it should on fault %q; the damage was then removed and the same arguments loaded again in the same process: still an error: %v", fault, err)
+		}
+		fault = ""
+		out.Probe("repair_seen")
 	}
 	sig := "analysis.LoadSources"
 	if err != nil {
@@ -649,6 +729,16 @@ func (c17) Shrink(raw json.RawMessage) []json.RawMessage {
 		q.Cwd = "modroot"
 		out = append(out, kernel.MustJSON(q))
 	}
+	for i := range p.Noise {
+		q := p
+		q.Noise = append(append([]string(nil), p.Noise[:i]...), p.Noise[i+1:]...)
+		out = append(out, kernel.MustJSON(q))
+	}
+	if p.Repair {
+		q := p
+		q.Repair = false
+		out = append(out, kernel.MustJSON(q))
+	}
 	if p.Outer != "" {
 		q := p
 		q.Outer = ""
@@ -684,7 +774,7 @@ func (c17) Shrink(raw json.RawMessage) []json.RawMessage {
 
 func (c17) Meta(env *kernel.Env) kernel.Meta {
 	return kernel.Meta{
-		Rule: "a run = one generated module tree (1-6 package directories from prefix-colliding families such as pa1|pa2, inner|inner2, a|ab|a/b, nested under optional outer directories) x a file set of 1-5 files (duplicates, shuffled) x a working directory (module root, a package dir, the parent, an unrelated dir, /) x a spelling per argument (absolute, relative, ./relative, dir/../dir/file) x at most one environment fault; distinct = distinct (directory set of the arguments, cwd class, spellings, outer dirs, fault); non-trivial = files from at least two directories, or a fault",
+		Rule: "a run = one generated module tree (1-6 package directories from prefix-colliding families such as pa1|pa2, inner|inner2, a|ab|a/b, nested under optional outer directories) x a file set of 1-5 files (duplicates, shuffled) x a working directory (module root, a package dir, the parent, an unrelated dir, /) x a spelling per argument (absolute, relative, ./relative, dir/../dir/file) x legal bystanders in the package directories (test files, build-tag-excluded files, _ and . files, testdata, nested modules) x at most one environment fault, optionally repaired and loaded again; distinct = distinct (directory set of the arguments, cwd class, spellings, outer dirs, fault); non-trivial = files from at least two directories, or a fault",
 		Real: []string{"analysis.LoadSources (current tree)", "os, path/filepath, go/packages, the `go list` subprocess, a real scratch file system"},
 		Stub: []string{"none (the environment is real, its content is generated)"},
 		Assumptions: []string{
